@@ -34,7 +34,7 @@ ASSUMPTIONS = ['pydicom is trusted to encode/decode data sets at both ends (the 
 
 def cases(tier, seed):
     rnd = random.Random('c15/%d' % seed)
-    n = 3000 if tier == 'quick' else 100000
+    n = 1500 if tier == 'quick' else 100000
     for i in range(n):
         recv = rnd.choice(['tempfile', 'dir', 'dir', 'mem'])
         fault = None
